@@ -64,11 +64,11 @@ mod verif_cursor {
         }
         if is_content && tok_idx == 1 {
             let o = if (content_off as usize) < st.len1 { content_off as usize } else { st.len1 };
-            assert!(c == st.start1 + o, "OB cursor/content_same_offset: Content{offset} lands at the same offset inside the same token");
+            assert!(c == st.start1 + o, "OB cursor/content_same_offset: Content(offset) lands at the same offset inside the same token");
         }
         if is_content && tok_idx == 0 {
             let o = if content_off < 1 { content_off as usize } else { 1 };
-            assert!(c == st.start0 + o, "OB cursor/content_same_offset: Content{offset} lands at the same offset inside the same token");
+            assert!(c == st.start0 + o, "OB cursor/content_same_offset: Content(offset) lands at the same offset inside the same token");
         }
     }
 
